@@ -885,7 +885,7 @@ fn gen_spec(rng: &mut Rng, c: &TransactionValidationConfig, tags: &mut Vec<Strin
             4 => {
                 let t = target!();
                 let span = around(rng, c.max_epoch_range as usize, 1 << 40) as u64;
-                t.end = t.start + span;
+                t.end = t.start.saturating_add(span);
                 tags.push("epoch_range".into());
             }
             5 => {
@@ -893,7 +893,7 @@ fn gen_spec(rng: &mut Rng, c: &TransactionValidationConfig, tags: &mut Vec<Strin
                 match rng.below(3) {
                     0 => t.end = t.start,
                     1 => t.end = t.start.saturating_sub(1),
-                    _ => t.end = t.start + 1,
+                    _ => t.end = t.start.saturating_add(1),
                 }
                 tags.push("epoch_empty".into());
             }
@@ -950,6 +950,8 @@ fn gen_spec(rng: &mut Rng, c: &TransactionValidationConfig, tags: &mut Vec<Strin
                 let a = spec.root.start;
                 let k = rng.usize_below(nsub);
                 let w = rng.range(1, c.max_epoch_range.min(20));
+                let a = a.min(u64::MAX - 1000);
+                spec.root.start = a;
                 spec.root.end = a + w;
                 let shift = match rng.below(3) {
                     0 => w - 1,
